@@ -356,7 +356,9 @@ class SED(object):
         else:
             apertures = (np.asarray(apertures, dtype=float) * u.au).to(self.apertures.unit).value
 
-        sed_apertures = self.apertures.value
+        # (in double precision, also when the file stores them in single
+        # precision)
+        sed_apertures = self.apertures.value.astype(float)
 
         # Create interpolating function
         flux_interp = interp1d(sed_apertures, self.flux.swapaxes(0, 1))
@@ -364,7 +366,7 @@ class SED(object):
         # If any apertures are smaller than the defined min, raise Exception
         # (an aperture that equals the smallest one up to rounding, e.g.
         # arcsec * 10**log10(d) versus arcsec * d, is not too small)
-        if np.any(apertures < float(sed_apertures.min()) * (1. - 1.e-10)):
+        if np.any(apertures < sed_apertures.min() * (1. - 1.e-10)):
             raise Exception("Aperture(s) requested too small")
 
         # If any apertures are larger than the defined max, reset to max
@@ -382,7 +384,9 @@ class SED(object):
         if self.n_ap == 1:
             return self.flux[0, :]
 
-        sed_apertures = self.apertures.to(u.au).value
+        # (converted in double precision, also when the file stores them in
+        # single precision)
+        sed_apertures = self.apertures.astype(float).to(u.au).value
         sed_wav = self.wav.to(u.micron).value
 
         # Work on a floating-point copy (the maximum would be truncated when
@@ -397,7 +401,7 @@ class SED(object):
 
         # If any apertures are smaller than the defined min, raise Exception
         # (equality up to rounding is accepted, see interpolate)
-        if np.any(apertures < float(sed_apertures.min()) * (1. - 1.e-10)):
+        if np.any(apertures < sed_apertures.min() * (1. - 1.e-10)):
             raise Exception("Aperture(s) requested too small")
 
         # Find wavelength order
